@@ -103,7 +103,7 @@ package server
 // compacting a URI and expanding the CURIE again gives the URI back: the result satisfies ExpandCurie's success condition with value val
 //@ unit (*Store).GetNamespacedIdentifierFromURI
 //@   prop C13
-//@   frame-assumed preserves RelatedFrom.*, []*server.RelatedFrom, Store.database, Store.NamespaceManager, Store.datasets, NamespaceManager.lock, Cell.*, Enc.*, []uint32
+//@   preserves RelatedFrom.*, []*server.RelatedFrom, Store.*, Dataset.*, DsManager.*, map[uint32]bool, NamespaceManager.lock, Cell.*, Enc.*, []uint32
 //@   requires [callers-hold-no-lock-at-or-above-the-namespace-lock] forall l int :: has($held, l) ==> lockLevel(l) < 5
 //@   requires s != nil && s.NamespaceManager != nil && !has($held, addrOf(s.NamespaceManager.lock))
 //@   ensures [roundtrip] ret1 == nil ==> indexOf(ret0, ":") >= 0 && has(s.NamespaceManager.prefixToExpansionMapping, ret0[:indexOf(ret0, ":")])
@@ -438,6 +438,7 @@ package server
 
 //@ unit (*Dataset).MapEntitiesRaw
 //@   prop C01 C07
+//@   preserves Dataset.*, Store.*, DsManager.*, map[uint64]int, map[uint32]bool
 //@   ghost txnG int
 //@   ghost seekPos int
 //@   ghost pos0 int
@@ -571,7 +572,7 @@ package server
 //@   requires ds.fullSyncStarted ==> ds.fullSyncSeen != nil
 //@   requires [callers-hold-only-locks-below-the-id-lock] (forall l int :: has($held, l) ==> lockLevel(l) < 4) && !has($held, lockerAddr(ds.store.idmux))
 //@   requires-inv [the-store-is-open] ds != nil && ds.store != nil ==> ds.store.database != nil
-//@   frame-assumed preserves Dataset.ID, Dataset.InternalID, Dataset.store, Store.NamespaceManager, Store.datasets, Store.datasetsByInternalID, Store.idmux, Store.database, Store.deletedDatasets, Store.MetaCtx, Store.nextDatasetID
+//@   preserves Dataset.ID, Dataset.InternalID, Dataset.store, Store.NamespaceManager, Store.datasets, Store.datasetsByInternalID, Store.idmux, Store.database, Store.deletedDatasets, Store.MetaCtx, Store.nextDatasetID, Entity.IsDeleted, Entity.ID, Dataset.fullSyncStarted, Dataset.fullSyncSeen, Dataset.fullSyncID, Dataset.fullSyncLease, []*server.Entity, map[uint32]bool, DsManager.*
 //@   safe nilmap
 //@   ghost seqObjG int = 0
 //@   at call GetSequence#1 before
@@ -641,6 +642,7 @@ package server
 //@     invariant -1 <= $i && $i < len(entities)
 //@     invariant [C01,C02:skip-only-if-identical] firstG || wroteG || (!isnewG && ((hasLocalG && eqLocalG) || (!hasLocalG && hasStoredG && eqStoredG)))
 //@     invariant [C19:counts-first-seen-once] firstG || newitems == newitemsStartG + ((isnewG || (!hasStoredG && !hasLocalG)) ? 1 : 0)
+//@     invariant [frame:the-entities-that-existed-before-the-call-keep-their-identity-and-deleted-flag] forall x *Entity :: foreign(x) ==> x.ID == old(x.ID) && x.IsDeleted == old(x.IsDeleted)
 
 // ---------------------------------------------------------------------------
 // C04 / C05 / C19: a batch is written under the dataset's write lock, ids are committed before the data that names
@@ -1238,7 +1240,7 @@ package server
 //@ unit (*Dataset).StartFullSync
 //@   prop C09 C08
 //@   ensures [no-lease-without-a-running-sync] !ds.fullSyncStarted ==> ds.fullSyncLease == nil
-//@   frame-assumed preserves Dataset.store, Dataset.ID, Dataset.InternalID, Store.*
+//@   preserves Dataset.store, Dataset.ID, Dataset.InternalID, Store.*, map[uint64]int
 //@   requires ds != nil
 //@   requires-inv [existing-objects] foreign(ds.fullSyncSeen)
 //@   ensures [started] result == nil && ds.fullSyncStarted
@@ -1251,7 +1253,7 @@ package server
 //@   prop C09
 //@   requires-inv [no-lease-without-a-running-sync] ds != nil ==> (!ds.fullSyncStarted ==> ds.fullSyncLease == nil)
 //@   ensures [no-lease-without-a-running-sync] !ds.fullSyncStarted ==> ds.fullSyncLease == nil
-//@   frame-assumed preserves Dataset.store, Dataset.ID, Dataset.InternalID, Store.*, map[uint64]int
+//@   preserves Dataset.store, Dataset.ID, Dataset.InternalID, Store.*, map[uint64]int
 //@   requires ds != nil && ds.store != nil
 //@   ensures [foreign-id-rejected-without-effect] ds.fullSyncStarted && fullSyncID != ds.fullSyncID ==> result != nil
 //@   ensures [state-unchanged-on-rejection] result != nil ==> ds.fullSyncStarted == old(ds.fullSyncStarted) && ds.fullSyncID == old(ds.fullSyncID) && ds.fullSyncSeen == old(ds.fullSyncSeen) && ds.fullSyncLease == old(ds.fullSyncLease)
@@ -1264,7 +1266,7 @@ package server
 
 //@ unit (*Dataset).StartFullSyncWithLease
 //@   prop C09
-//@   frame-assumed preserves Dataset.store, Dataset.ID, Dataset.InternalID, Store.*, map[uint64]int
+//@   preserves Dataset.store, Dataset.ID, Dataset.InternalID, Store.*, map[uint64]int
 //@   ensures [no-lease-without-a-running-sync] !ds.fullSyncStarted ==> ds.fullSyncLease == nil
 //@   requires ds != nil && ds.store != nil
 //@   requires-inv [existing-objects] foreign(ds.fullSyncSeen)
@@ -1272,7 +1274,7 @@ package server
 
 //@ unit (*Dataset).ReleaseFullSyncLease
 //@   prop C09
-//@   frame-assumed preserves Dataset.store, Dataset.ID, Dataset.InternalID, Store.*, map[uint64]int
+//@   preserves Dataset.store, Dataset.ID, Dataset.InternalID, Store.*, map[uint64]int
 //@   requires-inv [no-lease-without-a-running-sync] ds != nil ==> (!ds.fullSyncStarted ==> ds.fullSyncLease == nil)
 //@   ensures [no-lease-without-a-running-sync] !ds.fullSyncStarted ==> ds.fullSyncLease == nil
 //@   ensures [lease-unchanged] ds.fullSyncLease == old(ds.fullSyncLease)
@@ -1567,7 +1569,7 @@ package server
 //@ unit (*Store).GetObject
 //@   prop C14
 //@   requires-inv [the-store-exists] s != nil
-//@   frame-assumed preserves Store.database, Store.NamespaceManager, Store.nextDatasetID, Store.storeLocation, NamespaceManager.lock
+//@   preserves Store.database, Store.NamespaceManager, Store.nextDatasetID, Store.storeLocation, NamespaceManager.lock
 //@   safe slice
 //@   at call readValue#1 before
 //@     assert [C14:object-read-from-the-key-of-its-collection-and-id] isObjKey(key, collection, id)
@@ -1630,7 +1632,7 @@ package server
 //@   ensures [lock-released] $held == old($held)
 //@   at call getIDForURI#1 before
 //@     assert [C03:compact-predicates-are-looked-up-as-given] hasPrefix(predicate, "ns") ==> uri == predicate
-//@   frame-assumed preserves Store.*, NamespaceManager.lock, Dataset.*, RelatedFrom.*, []*server.RelatedFrom, Cell.*, Enc.*, []uint32
+//@   preserves Store.*, NamespaceManager.lock, Dataset.*, RelatedFrom.*, []*server.RelatedFrom, Cell.*, Enc.*, []uint32
 // a start point of a relationship query: the 10-byte key {index of the direction, internal id of the start entity}, the
 // predicate, the direction, the scope and the one instant the whole query is pinned to
 //@ unit (*Store).ToRelatedFrom
@@ -1705,7 +1707,7 @@ package server
 //@     ghost handedOnG := true
 //@ unit (*Dataset).MapEntities
 //@   prop C01
-//@   frame-assumed preserves Dataset.fullSyncStarted, Dataset.fullSyncSeen, Dataset.fullSyncID, Dataset.fullSyncLease, Dataset.store, map[uint64]int
+//@   preserves Dataset.fullSyncStarted, Dataset.fullSyncSeen, Dataset.fullSyncID, Dataset.fullSyncLease, Dataset.store, map[uint64]int
 //@   requires ds != nil && ds.store != nil
 //@   requires [token-came-from-an-earlier-page-of-this-dataset] from != "" ==> tokOK(from) && tokLen(from) == 14 && tokCl(from) == 8 && tokDs(from) == ds.InternalID
 //@   dyncall processEntity pure
@@ -1736,7 +1738,7 @@ package server
 // in the requested scope
 //@ unit (*Store).GetEntity
 //@   prop C01
-//@   frame-assumed preserves Store.deletedDatasets, map[uint32]bool, DsManager.*, Dataset.*
+//@   preserves Store.deletedDatasets, map[uint32]bool, DsManager.*, Dataset.*
 //@   ghost idG int = 0
 //@   ghost scopeG slice
 //@   requires-inv [the-store-is-constructed] s != nil && s.database != nil && s.NamespaceManager != nil
